@@ -31,14 +31,29 @@ def run(tier, seed):
     transitions += r.generated
     cfgs.append({"cfg": cfg, "distinct": r.distinct, "wall_s": round(r.wall, 1)})
     schedules = vf.parse_tlines(r.out, "B")
-    # stratified sample: every schedule in which the deviation fires is rare; keep a share of them
+    # stratified sample: schedules are grouped by the shape of their steps (call, verdict expected, whether the block
+    # has transactions / removes the pair / carries prices / is a faulty proposer's); every shape is represented
     rnd = random.Random(seed)
-    dev = [s for s in schedules if s["dev"]]
-    rest = [s for s in schedules if not s["dev"]]
-    rnd.shuffle(dev)
-    rnd.shuffle(rest)
-    n = 140 if tier == "quick" else 3000
-    sample = dev[: n // 7] + rest[: n - min(len(dev), n // 7)]
+    rnd.shuffle(schedules)
+
+    def shape(s):
+        pre, fin = s["hist"][:-1], s["hist"][-1]["b"]
+        return tuple((h["op"], h["ok"], bool(h["b"]["txs"]), "removeP" in h["b"]["txs"], h["b"]["prices"], h["b"]["bad"])
+                     for h in pre) + (any(h["b"] == fin for h in pre), fin["prices"], s["dev"])
+    classes = {}
+    for s in schedules:
+        classes.setdefault(shape(s), []).append(s)
+    # quick: one schedule of every shape; thorough: several
+    n = len(classes) if tier == "quick" else 6000
+    sample = []
+    depth = 0
+    keys = sorted(classes, key=repr)
+    rnd.shuffle(keys)
+    while len(sample) < n and any(len(c) > depth for c in classes.values()):
+        for k in keys:
+            if len(classes[k]) > depth and len(sample) < n:
+                sample.append(classes[k][depth])
+        depth += 1
     results = vf.run_harness_sharded("astria-sequencer", ENTRY, sample, tag=f"c05-{tier}", shards=14, timeout=3000) if sample else []
     if len(results) != len(sample):
         raise vf.ToolError(f"harness returned {len(results)} results for {len(sample)} schedules")
